@@ -40,7 +40,9 @@ func NodeConfig(join []string) *config.Config {
 	conf.Cluster.JoinTimeout = 5 * time.Second
 	conf.Cluster.AbortIfJoinFails = false
 	conf.Cluster.Gossip.BindAddr = "127.0.0.1:0"
-	conf.Cluster.Gossip.Interval = 15 * time.Millisecond
+	// 40ms: a node is suspected after ~1.6s without a heartbeat (20 x 2 x
+	// interval), so that a loaded machine does not make healthy nodes flap
+	conf.Cluster.Gossip.Interval = 40 * time.Millisecond
 	conf.Proxy.AccessLog.Disable = true
 	conf.GracePeriod = 5 * time.Second
 	return conf
@@ -194,6 +196,41 @@ func WaitFor(deadline time.Duration, pred func() bool) bool {
 		}
 		time.Sleep(5 * time.Millisecond)
 	}
+}
+
+// AllActive: every node lists every other node as active. The failure
+// detector runs on wall-clock heartbeats; on a starved machine a healthy node
+// can be suspected for a moment, during which requests that need it are
+// refused (correctly). Checks whose oracle assumes a healthy cluster ask this
+// before they believe a refusal.
+func AllActive(nodes []*FullNode) bool {
+	for _, o := range nodes {
+		for _, x := range nodes {
+			if o == x {
+				continue
+			}
+			n, ok := o.State().Node(x.ID)
+			if !ok || n.Status != cluster.NodeStatusActive {
+				return false
+			}
+		}
+	}
+	return true
+}
+
+// WaitAllActive waits until AllActive holds continuously for a short while.
+func WaitAllActive(nodes []*FullNode, d time.Duration) bool {
+	end := time.Now().Add(d)
+	for time.Now().Before(end) {
+		if AllActive(nodes) {
+			time.Sleep(100 * time.Millisecond)
+			if AllActive(nodes) {
+				return true
+			}
+		}
+		time.Sleep(20 * time.Millisecond)
+	}
+	return false
 }
 
 // ViewOf renders node n's routing table as "id:status{ep=count,...};..."
